@@ -195,6 +195,9 @@ class FolderProjectIo(ProjectIoInterface):
                 format_name=saving_options.data_format,
                 allow_overwrite=True,
             )
+            # The filtered dataset is a new object, the result file references the original one.
+            result.data[label].attrs["loader"] = dataset.attrs["loader"]
+            result.data[label].attrs["source_path"] = dataset.attrs["source_path"]
             paths.append(data_path.as_posix())
 
         return paths
